@@ -156,19 +156,17 @@ fn check_completeness(n: usize, mask: u8) {
     assert!(ok, "C09 completeness: the generated batch proof verifies against the commitment");
 }
 
-/// soundness: an ARBITRARY proof object of the given shape (k claimed leaves, nvals path values; symbolic path values,
-/// symbolic indices, symbolic claimed leaves) verifies only if the indices are strictly increasing, in range, and every
-/// claimed leaf is the committed leaf at the position stated
-fn check_soundness(n: usize, k: usize, nvals: usize) {
+/// soundness: an ARBITRARY proof object of the given SHAPE (k claimed leaves at the concrete wire indices i0, i1; nvals
+/// path values) with symbolic CONTENTS (path values, claimed leaves, committed leaves) verifies only if the indices are
+/// strictly increasing, in range, and every claimed leaf is the committed leaf at the position stated. Symbolic indices
+/// drive the number of levels walked and the container sizes and do not terminate in CBMC; index values are enumerated.
+fn check_soundness(n: usize, k: usize, nvals: usize, i0: usize, i1: usize) {
     let leaves = any_leaves(n);
     let tree = MerkleTree::<IdealHash, Leaf>::new(&leaves);
     let commitment = tree.to_merkle_tree_batch_commitment();
-    let raw_idx: [usize; 2] = kani::any();
+    let raw_idx: [usize; 2] = [i0, i1];
     let raw_claim: [u8; 2] = kani::any();
     let raw_vals: [u64; 3] = kani::any();
-    // wire indices kept small: `i + next_power_of_two - 1` overflow for huge indices is a C05 matter, and the number of
-    // levels walked depends on the index
-    kani::assume(raw_idx[0] < 8 && raw_idx[1] < 8);
     let mut idx = Vec::new();
     let mut claimed = Vec::new();
     let mut i = 0;
@@ -191,9 +189,9 @@ fn check_soundness(n: usize, k: usize, nvals: usize) {
     let r = commitment.verify_leaves_membership_from_batch_path(&claimed, &proof);
     let ok = r.is_ok();
     std::mem::forget(r);
+    kani::cover!(true, "reachable");
     assert!(!unsafe { OVERFLOW }, "harness: ideal-hash table large enough");
     if ok {
-        kani::cover!(true, "some proof of this shape is accepted");
         let mut j = 0;
         while j < 2 {
             if j < k {
@@ -209,18 +207,17 @@ fn check_soundness(n: usize, k: usize, nvals: usize) {
 }
 
 macro_rules! c09_completeness { ($($name:ident = ($n:expr, $mask:expr)),* $(,)?) => { $( c09_harness! { #[kani::unwind(13)] fn $name() { check_completeness($n, $mask) } } )* }; }
-macro_rules! c09_soundness { ($($name:ident = ($n:expr, $k:expr, $v:expr)),* $(,)?) => { $( c09_harness! { #[kani::unwind(13)] fn $name() { check_soundness($n, $k, $v) } } )* }; }
+macro_rules! c09_soundness { ($($name:ident = ($n:expr, $k:expr, $v:expr, $i0:expr, $i1:expr)),* $(,)?) => { $( c09_harness! { #[kani::unwind(13)] fn $name() { check_soundness($n, $k, $v, $i0, $i1) } } )* }; }
 
-c09_completeness!(
-    c09_completeness_n1_m1 = (1, 1),
-    c09_completeness_n2_m1 = (2, 1), c09_completeness_n2_m2 = (2, 2), c09_completeness_n2_m3 = (2, 3),
-    c09_completeness_n3_m1 = (3, 1), c09_completeness_n3_m2 = (3, 2), c09_completeness_n3_m3 = (3, 3), c09_completeness_n3_m4 = (3, 4),
-    c09_completeness_n3_m5 = (3, 5), c09_completeness_n3_m6 = (3, 6), c09_completeness_n3_m7 = (3, 7),
-    c09_completeness_n4_m5 = (4, 5), c09_completeness_n4_m10 = (4, 10), c09_completeness_n4_m15 = (4, 15),
-);
 c09_soundness!(
-    c09_soundness_n2_k1_v0 = (2, 1, 0), c09_soundness_n2_k1_v1 = (2, 1, 1), c09_soundness_n2_k1_v2 = (2, 1, 2),
-    c09_soundness_n2_k2_v0 = (2, 2, 0), c09_soundness_n2_k2_v1 = (2, 2, 1),
-    c09_soundness_n3_k1_v1 = (3, 1, 1), c09_soundness_n3_k1_v2 = (3, 1, 2), c09_soundness_n3_k1_v3 = (3, 1, 3),
-    c09_soundness_n3_k2_v0 = (3, 2, 0), c09_soundness_n3_k2_v1 = (3, 2, 1), c09_soundness_n3_k2_v2 = (3, 2, 2),
+    // n = 2, one claimed leaf, the honest number of path values (1): in-range and out-of-range positions
+    c09_soundness_n2_k1_v1_i0 = (2, 1, 1, 0, 0), c09_soundness_n2_k1_v1_i1 = (2, 1, 1, 1, 0), c09_soundness_n2_k1_v1_i2 = (2, 1, 1, 2, 0),
+    c09_soundness_n2_k1_v0_i0 = (2, 1, 0, 0, 0), c09_soundness_n2_k1_v2_i1 = (2, 1, 2, 1, 0),
+    // n = 2, two claimed leaves: honest order, swapped, duplicated, out of range; with and without a (superfluous) path value
+    c09_soundness_n2_k2_v0_i01 = (2, 2, 0, 0, 1), c09_soundness_n2_k2_v0_i10 = (2, 2, 0, 1, 0), c09_soundness_n2_k2_v0_i00 = (2, 2, 0, 0, 0),
+    c09_soundness_n2_k2_v0_i11 = (2, 2, 0, 1, 1), c09_soundness_n2_k2_v0_i02 = (2, 2, 0, 0, 2),
+    c09_soundness_n2_k2_v2_i00 = (2, 2, 2, 0, 0), c09_soundness_n2_k2_v2_i11 = (2, 2, 2, 1, 1), c09_soundness_n2_k2_v1_i01 = (2, 2, 1, 0, 1),
+    // n = 3 (padding node next to leaf 2)
+    c09_soundness_n3_k1_v2_i0 = (3, 1, 2, 0, 0), c09_soundness_n3_k1_v2_i2 = (3, 1, 2, 2, 0), c09_soundness_n3_k1_v1_i2 = (3, 1, 1, 2, 0), c09_soundness_n3_k1_v2_i3 = (3, 1, 2, 3, 0),
+    c09_soundness_n3_k2_v1_i01 = (3, 2, 1, 0, 1), c09_soundness_n3_k2_v1_i23 = (3, 2, 1, 2, 3), c09_soundness_n3_k2_v2_i02 = (3, 2, 2, 0, 2), c09_soundness_n3_k2_v3_i22 = (3, 2, 3, 2, 2),
 );
